@@ -80,11 +80,13 @@ theorem verifyTxs_none {c : Ctx} {b : Block} (h : verifyTxs c b = none) :
   unfold verifyTxs at h
   split at h
   · cases h
-  · rename_i hanc
-    split at h
-    · rename_i hall
-      exact ⟨by simpa using hanc, by simpa [List.all_eq_true] using hall⟩
+  · split at h
     · cases h
+    · rename_i hanc
+      split at h
+      · rename_i hall
+        exact ⟨by simpa using hanc, by simpa [List.all_eq_true] using hall⟩
+      · cases h
 
 /-! ### rankOfMiner -/
 
